@@ -59,6 +59,13 @@ def run(ctx):
         if not drv and ctx.lean_ok:
             ctx.violate("precondition:driver", "drv_native does not build", {"kind": "driver"}, found_input=False)
         res = ctx.correspondence("witness", hbin, ["witness"], drv, ["witness"])
+        if ctx.replay is not None:
+            # op lines of this stream carry observations (post/pre/operator) of the tree they were recorded on; when they no
+            # longer hold the harness answers `stale-op` (the property oracle is still evaluated on the real outcome)
+            stale = [m for m in res["mismatches"] if m.get("go") == "stale-op"]
+            if stale:
+                ctx.note("%d replayed op line(s) carry observations that no longer hold on this tree; compared by the property oracle only" % len(stale))
+                res["mismatches"] = [m for m in res["mismatches"] if m.get("go") != "stale-op"]
         ctx.judge(res, theorem_hint="Poly.Props.C18 (model of CheckWitness / guard shapes, instantiated with the generated guard table, "
                                     "no longer predicts the real methods' verdicts)")
     ctx.judge_lean()
